@@ -104,6 +104,14 @@ def run(ctx, res):
     n = ctx.budget(40, 600)
     for i in range(n):
         regs = {nm: U.rand_bytes(rng, sz) for nm, sz in U.REGION_SIZES}
+        if i % 4 == 1:
+            # sound effects made of whole records that look unused (defaults with speed 16 / speed 1 / all zero) next to used ones:
+            # a reader that treats "unused" records specially must still give back exactly these bytes
+            regs['sfx'] = U.rand_bytes(rng, 0x1100, 'records')
+        if i == 5:
+            regs['sfx'] = (bytes(64) + b'\x00\x10\x00\x00') * 64          # every record — the first too — at speed 16
+        if i == 9:
+            regs['sfx'] = (bytes(64) + b'\x00\x01\x00\x00') * 64          # every record at speed 1
         version = rng.choice([0, 1, 8, 33, 41, 255, 256, 2 ** 31 - 1, rng.randrange(1, 60)])
         label = U.rand_bytes(rng, 0x2000) if rng.random() < 0.4 else None
         if i == 0:
